@@ -114,13 +114,15 @@ BOUNDS = {
               'n_all_noises': 5,
               'noises_above': [('depol', False), ('X.2Y.3Z.5', True), ('pureZ', False), ('pureZ', True),
                                ('pureX', True)],
-              'deformed_code_n': 0, 'structured_weight': 1, 'estimator_max_runs': 4, 'history_total': 4,
+              'deformed_code_n': 0, 'structured_weight': 1, 'estimator_max_runs': 4, 'exact_n': 8, 'sampler_sizes': 2, 'sampler_n': 40,
+              'history_total': 4,
               'history_len': 4, 'seeds': 5, 'seed_trials': 20},
     'thorough': {'n_full': 8, 'noises': NOISES, 'rates': RATES, 'shard': SHARD, 'shard_slow': 256, 'n_all_noises': 6,
                  'noises_above': [('depol', False), ('X.2Y.3Z.5', True), ('pureZ', False), ('pureZ', True),
                                   ('pureX', True)],
                  'uf_noises': [('depol', False), ('X.2Y.3Z.5', True), ('pureZ', True)],
-                 'deformed_code_n': 6, 'structured_weight': 2, 'estimator_max_runs': 6, 'history_total': 4,
+                 'deformed_code_n': 6, 'structured_weight': 2, 'estimator_max_runs': 6, 'exact_n': 8, 'sampler_sizes': 4, 'sampler_n': 100,
+                 'history_total': 4,
                  'history_len': 4, 'seeds': 5, 'seed_trials': 20},
 }
 BUDGET_S = {'quick': 900, 'thorough': 7200}
@@ -288,27 +290,43 @@ def _noise_classes():
     return _NOISE_CLASSES
 
 
-def _error_model(direction, deformation_name, kind='rec'):
-    em = _noise_classes()[kind](*DIRECTIONS[direction], deformation_name=deformation_name)
+def _error_model(direction, deformation_name, kind='rec', deformation_kwargs=None):
+    em = _noise_classes()[kind](*DIRECTIONS[direction], deformation_name=deformation_name,
+                                deformation_kwargs=dict(deformation_kwargs or {}) or None)
     em.rates = []
     return em
+
+
+def _smallest_sizes(name, count):
+    """The `count` smallest valid family sizes of a class, by qubit number."""
+    szs = [sz for sz in F.sizes(name, 0, min_count=count + 2) if not F.known_invalid({'cls': name, 'size': sz})]
+    szs.sort(key=lambda sz: (F.n_qubits(name, sz) or 10 ** 6, sz))
+    return szs[:count]
 
 
 def _build_code(case):
     return F.build({'cls': case['cls'], 'size': case['size'], 'deformation': case.get('deformation')})
 
 
-def ref_probabilities(code, direction, deformation_name, p):
+def _ref_probs(case):
+    """Reference channel of the case, read from a FRESH code object (never the simulated one)."""
+    return ref_probabilities(_build_code(case), case['direction'], case['noise_deformation'], case['p'],
+                             case.get('noise_deformation_kwargs'))
+
+
+def ref_probabilities(code, direction, deformation_name, p, deformation_kwargs=None):
     """Per-qubit (p_I, p_X, p_Y, p_Z) from the definition of the (deformed) i.i.d. Pauli channel: an undeformed
     qubit suffers sigma with probability p*r_sigma; on a deformed qubit the single-qubit Clifford maps the
-    Paulis by the permutation D (read from the code), and sigma occurs with probability p*r_{D(sigma)}."""
+    Paulis by the permutation D (read PER QUBIT from a code object), and sigma occurs with probability
+    p*r_{D(sigma)}.  Callers pass a code object that is not the one handed to the simulation."""
     r = dict(zip('XYZ', DIRECTIONS[direction]))
     out = []
     for i in range(code.n):
         if deformation_name is None:
             d = {'X': 'X', 'Y': 'Y', 'Z': 'Z'}
         else:
-            d = code.get_deformation(code.qubit_coordinates[i], deformation_name)
+            d = code.get_deformation(code.qubit_coordinates[i], deformation_name,
+                                     **dict(deformation_kwargs or {}))
             if sorted(d.keys()) != ['X', 'Y', 'Z'] or sorted(d.values()) != ['X', 'Y', 'Z']:
                 raise ValueError('deformation is not a permutation of the Paulis: %r' % (d,))
         out.append((1.0 - p, p * r[d['X']], p * r[d['Y']], p * r[d['Z']]))
@@ -443,7 +461,9 @@ def _base_key(case, ref=None):
     k = {'part': case['part'], 'decoder': case['decoder'], 'params': dict(case.get('params') or {}),
          'cls': case['cls'], 'size': list(case['size']),
          'code_deformation': d[0] if d else None, 'direction': case['direction'],
-         'noise_deformation': case['noise_deformation'], 'p': case['p'], 'decoder_p': _prior(case),
+         'noise_deformation': case['noise_deformation'],
+         'noise_deformation_axis': (case.get('noise_deformation_kwargs') or {}).get('deformation_axis'),
+         'p': case['p'], 'decoder_p': _prior(case),
          'prior_differs': _prior(case) != case['p']}
     if ref is not None:
         k['n'] = ref.n
@@ -497,7 +517,43 @@ def cases(tier, seed):
                                       'deformation': cfg['deformation'], 'decoder': dec, 'params': {},
                                       'direction': direction, 'noise_deformation': nd, 'p': p,
                                       'lo': lo, 'hi': min(total, lo + shard), 'n': n})
+    # every deformation configuration (name and axis) every class offers, on the smallest member of the class
+    # that can be enumerated exactly (n <= exact_n): single-Pauli directions, so 2^n scripts each
+    for name in F.CLASSES:
+        szs = _smallest_sizes(name, 1)
+        if not szs or (F.n_qubits(name, szs[0]) or 99) > b['exact_n']:
+            continue
+        sz, n = szs[0], F.n_qubits(name, szs[0])
+        have = {(c['decoder'], c['direction'], c['noise_deformation'], c['p']) for c in trial
+                if c['cls'] == name and c['size'] == sz and c['deformation'] is None}
+        for dn, dk in F.deformations(name):
+            for dec in ('MatchingDecoder', 'BeliefPropagationOSDDecoder'):
+                if not _allowed(dec, name):
+                    continue
+                for direction in ('pureZ', 'pureX'):
+                    for p in b['rates']:
+                        if not dk and (dec, direction, dn, p) in have:
+                            continue
+                        trial.append({'part': 'trial', 'cls': name, 'size': sz, 'deformation': None,
+                                      'decoder': dec, 'params': {}, 'direction': direction,
+                                      'noise_deformation': dn, 'noise_deformation_kwargs': dk, 'p': p,
+                                      'lo': 0, 'hi': 2 ** n, 'n': n})
     trial.sort(key=lambda c: (c['n'], c['deformation'] is not None))       # stable: simplest first
+    # ---- part 'sampler': classes too large for the exact sum included -- every deformation configuration of
+    # every class on its smallest members, directions with r_x != r_z, trial-by-trial scripted reference
+    sampler = []
+    for name in F.CLASSES:
+        szs = [sz for i, sz in enumerate(_smallest_sizes(name, b['sampler_sizes']))
+               if i == 0 or (F.n_qubits(name, sz) or 10 ** 6) <= b['sampler_n']]
+        for sz in szs:
+            for dn, dk in F.deformations(name):
+                for direction in ('X.2Y.3Z.5', 'pureZ'):
+                    sampler.append({'part': 'sampler', 'cls': name, 'size': sz, 'deformation': None,
+                                    'decoder': 'BeliefPropagationOSDDecoder', 'params': {},
+                                    'direction': direction, 'noise_deformation': dn,
+                                    'noise_deformation_kwargs': dk, 'p': 0.3, 'weight': 1,
+                                    'n': F.n_qubits(name, sz)})
+    sampler.sort(key=lambda c: c['n'])
     # ---- part 'structured'
     structured = []
     for dec, cls, size, params, w in STRUCTURED[tier]:
@@ -535,12 +591,12 @@ def cases(tier, seed):
     large = [c for c in trial if c['n'] > 5]
     seeds0 = [c for c in seeds if c['seed'] == 0]
     seeds1 = [c for c in seeds if c['seed'] != 0]
-    return structured + estim + seeds0 + small + hist + seeds1 + large
+    return structured + estim + seeds0 + small + sampler + hist + seeds1 + large
 
 
 def eval_case(case):
     res = {'trial': _eval_trial, 'structured': _eval_structured, 'histories': _eval_histories,
-           'seeds': _eval_seeds, 'estimator': _eval_estimator}[case['part']](case)
+           'seeds': _eval_seeds, 'estimator': _eval_estimator, 'sampler': _eval_structured}[case['part']](case)
     for v in res['violations']:                 # per-kind totals of emitted violations, for the evidence
         nm = 'emitted_%s_%s' % (case['part'], v['key']['kind'].replace('-', '_'))
         res['extra'][nm] = res['extra'].get(nm, 0) + 1
@@ -556,7 +612,8 @@ def _prior(case):
 def _fresh_decoder(case, code, noise_kind='rec'):
     """Fresh (error model, decoder); the decoder is built with its prior rate, which may differ from the
     simulated rate case['p']."""
-    em = _error_model(case['direction'], case['noise_deformation'], noise_kind)
+    em = _error_model(case['direction'], case['noise_deformation'], noise_kind,
+                      case.get('noise_deformation_kwargs'))
     return em, _decoder_class(case['decoder'])(code, em, _prior(case), **case.get('params', {}))
 
 
@@ -568,7 +625,7 @@ def _eval_trial(case):
     ref_code = _build_code(case)                    # separate object for the reference pipeline
     ref = _Ref(code)
     n = ref.n
-    probs = ref_probabilities(code, case['direction'], case['noise_deformation'], case['p'])
+    probs = _ref_probs(case)
     env = _Env(code, probs)
     key0 = _base_key(case, ref)
     counts = {}
@@ -701,7 +758,7 @@ def _eval_structured(case):
     code = _build_code(case)
     ref = _Ref(code)
     n = ref.n
-    probs = ref_probabilities(code, case['direction'], case['noise_deformation'], case['p'])
+    probs = _ref_probs(case)
     env = _Env(code, probs)
     key0 = dict(_base_key(case, ref), weight=case['weight'])
     counts = {}
@@ -715,43 +772,59 @@ def _eval_structured(case):
 
     em, dec = _fresh_decoder(case, code)
     outcomes = set()
-    for w in range(case['weight'] + 1):
-        for qs in itertools.combinations(range(n), w):
-            for cl in itertools.product((1, 2, 3), repeat=w):
-                script = [0] * n
-                for q, c in zip(qs, cl):
-                    script[q] = c
-                e_script = env.error_int(script)
-                rng = ScriptedRNG(env.variates(script))
-                try:
-                    with contextlib.redirect_stdout(io.StringIO()):
-                        r = run_once(code, em, dec, case['p'], rng=rng)
-                except ScriptExhausted as exc:
-                    bad('rng-consumption', e_script, message=str(exc)[:100])
-                    continue
-                except Exception as exc:
-                    kind = 'raises'
-                    counts[kind] = counts.get(kind, 0) + 1
-                    if counts[kind] == 1:
-                        V.append({'key': dict(key0, kind=kind, exc=type(exc).__name__),
-                                  'detail': {'script': _pauli(e_script, n), 'message': str(exc)[:200]}})
-                    res['evals'] += 1
-                    continue
-                res['evals'] += 1
-                res['nontrivial'] += int(w > 0)
-                _check_record(ref, r, e_script, rng, bad)
-                outcomes.add('%s|%s|%d%d|%s' % (case['cls'], case['decoder'][:5], int(bool(r['success'])),
-                                                int(bool(r['codespace'])),
-                                                ''.join(str(int(x)) for x in np.asarray(r['effective_error']))))
+
+    def scripts():
+        for w in range(case['weight'] + 1):
+            for qs in itertools.combinations(range(n), w):
+                for cl in itertools.product((1, 2, 3), repeat=w):
+                    script = [0] * n
+                    for q, c in zip(qs, cl):
+                        script[q] = c
+                    yield w, script
+        if case['part'] == 'sampler':
+            # every qubit non-identity at once: its r-th class of positive probability
+            for r in range(3):
+                nonid = [[c for c in env.allowed[i] if c != 0] for i in range(n)]
+                if any(len(a) > r for a in nonid):
+                    yield n, [a[r] if len(a) > r else 0 for a in nonid]
+
+    for w, script in scripts():
+        if any(env.var[i][c] is None for i, c in enumerate(script)):
+            X['scripts_with_a_zero_probability_class_not_executable'] = \
+                X.get('scripts_with_a_zero_probability_class_not_executable', 0) + 1
+            continue
+        e_script = env.error_int(script)
+        rng = ScriptedRNG(env.variates(script))
+        try:
+            with contextlib.redirect_stdout(io.StringIO()):
+                r = run_once(code, em, dec, case['p'], rng=rng)
+        except ScriptExhausted as exc:
+            bad('rng-consumption', e_script, message=str(exc)[:100])
+            continue
+        except Exception as exc:
+            kind = 'raises'
+            counts[kind] = counts.get(kind, 0) + 1
+            if counts[kind] == 1:
+                V.append({'key': dict(key0, kind=kind, exc=type(exc).__name__),
+                          'detail': {'script': _pauli(e_script, n), 'message': str(exc)[:200]}})
+            res['evals'] += 1
+            continue
+        res['evals'] += 1
+        res['nontrivial'] += int(w > 0)
+        _check_record(ref, r, e_script, rng, bad)
+        outcomes.add('%s|%s|%d%d|%s' % (case['cls'], case['decoder'][:5], int(bool(r['success'])),
+                                        int(bool(r['codespace'])),
+                                        ''.join(str(int(x)) for x in np.asarray(r['effective_error']))))
     for kk, vv in counts.items():
-        X['structured_' + kk.replace('-', '_')] = vv
+        X[case['part'] + '_' + kk.replace('-', '_')] = vv
     if counts.get('rng-consumption'):           # environment not under control: keep the deterministic finding
         V[:] = [v for v in V if v['key']['kind'] == 'rng-consumption']
     del V[5:]
     res['traces'] = res['evals']
     res['outcomes'] = sorted(outcomes)[:50]
-    res['samples'].append({'part': 'structured', 'config': '%s %s' % (F.cfg_label(case), case['decoder']),
-                           'weight': case['weight'], 'scripts': res['evals']})
+    res['samples'].append({'part': case['part'], 'config': '%s %s %s/%s%s' % (
+        F.cfg_label(case), case['decoder'], case['direction'], case['noise_deformation'],
+        case.get('noise_deformation_kwargs') or ''), 'weight': case['weight'], 'scripts': res['evals']})
     return res
 
 
@@ -820,7 +893,7 @@ def _eval_histories(case):
     code = _build_code(case)
     ref = _Ref(code)
     n = ref.n
-    probs = ref_probabilities(code, case['direction'], case['noise_deformation'], case['p'])
+    probs = _ref_probs(case)
     env = _Env(code, probs)
     key0 = dict(_base_key(case, ref), stream=case['stream'])
     V = res['violations']
